@@ -39,7 +39,7 @@ REQUIRED_COUNTERS = {"boundary_faults_escaped": {"quick": 300, "thorough": 2000}
                      "arbitrary_inputs": {"quick": 40, "thorough": 40}}
 SHARD_TIMEOUT = {"quick": 400, "thorough": 5400}
 INTERPS = ["3.12", "3.11", "3.10", "3.9"]
-SCENARIOS = ["async_chain", "async_chain_exiting", "hooked_exiting", "hook_replaces", "stack_children", "thread",
+SCENARIOS = ["async_chain", "async_chain_exiting", "hooked_exiting", "hook_replaces", "hook_prunes", "stack_children", "thread",
              "custom", "running", "greenlet"]
 
 
@@ -341,6 +341,22 @@ def worker(spec):
         with stack_of_two():
             await sus(3)
 
+    @contextlib.contextmanager
+    def pruned_cm():
+        # its hook hides the manager (PRUNE): what was recorded on its inner stack must stay retrievable
+        with Repl():
+            with inner_cm():
+                yield
+
+    @unwrap_context_generator.register(pruned_cm)
+    def _prune(frame, context):
+        return stackscope.PRUNE
+
+    async def lvl_pruned():
+        with inner_cm(), pruned_cm():
+            with pruned_cm():
+                await sus(4)
+
     async def lvl_hooked_exit():
         with inner_cm():
             async with hooked_exiting_acm():
@@ -422,6 +438,10 @@ def worker(spec):
             return (lambda: stackscope.extract(co)), co.close
         if name == "stack_children":
             co = lvl_stack_children()
+            co.send(None)
+            return (lambda: stackscope.extract(co)), co.close
+        if name == "hook_prunes":
+            co = lvl_pruned()
             co.send(None)
             return (lambda: stackscope.extract(co)), co.close
         if name == "hook_replaces":
